@@ -221,6 +221,10 @@ theorem step_links (H : Bytes → D) (verify : Variant) (limit : Option Nat) (st
     simp only [step] at h
     injection h with h; subst h
     rw [advance_links]
+  | timeout =>
+    simp only [step] at h
+    injection h with h; subst h
+    rw [advance_links]
 
 theorem runSteps_links (H : Bytes → D) (verify : Variant) (limit : Option Nat) (ss : List Step) :
     ∀ (st st' : Run D), runSteps H verify limit st ss = some st' → st'.cache.links = st.cache.links := by
@@ -939,6 +943,10 @@ theorem step_files (H : Bytes → D) (v : Variant) (hs : v.staged = true) (limit
     · injection h with h; subst h
       rw [advance_files v hs, applyTask_files H v hs]
   | cancel =>
+    simp only [step] at h
+    injection h with h; subst h
+    rw [advance_files v hs]
+  | timeout =>
     simp only [step] at h
     injection h with h; subst h
     rw [advance_files v hs]
